@@ -111,7 +111,7 @@ void prop_c11(hz::Ctx &ctx) {
     auto ref = form_refs([](const Form &f) { return std::string(f.pat) == "R,IMOV"; });
     FormRef r64; for (auto &r : ref) if (r.size == 64) r64 = r;
     for (size_t i = 0; i < sps.size(); i++) for (int mode = 0; mode < 3; mode++) {
-      int nregs = ctx.thorough() ? 16 : 4;
+      int nregs = ctx.thorough() ? 16 : 8;
       for (int k = 0; k < nregs; k++) {
         int reg = ctx.thorough() ? k : (int)((i * 7 + k * 5 + mode) % 16);
         LineCase c; c.it = base_intent(r64); c.it.ops = {wgpr(reg, 64), wimm(sps[i].v, 64, sps[i].hex, sps[i].neg, sps[i].pad)};
@@ -159,7 +159,7 @@ void prop_c11(hz::Ctx &ctx) {
     }
   }
   // (c) every other line: identical bytes under all twelve combinations
-  corpus(ctx, rng, ctx.thorough() ? 40 : 6, [&](const Intent &it) {
+  corpus(ctx, rng, ctx.thorough() ? 120 : 24, [&](const Intent &it) {
     if (is_mov_r64_imm(it) || sib_sensitive(it)) return;
     if (!ctx.take()) return;
     LineCase c{it, DEFAULT_COMBO};
@@ -271,8 +271,8 @@ static SpV check_program_noise(const std::vector<std::string> &lines, int combo,
 void prop_c16(hz::Ctx &ctx) {
   hz::Rng rng(ctx.seed ^ 0xc16);
   std::vector<std::string> pool; // valid canonical lines for the program part
-  corpus(ctx, rng, ctx.thorough() ? 60 : 16, [&](const Intent &it) {
-    int variants = ctx.thorough() ? 8 : 5;
+  corpus(ctx, rng, ctx.thorough() ? 200 : 40, [&](const Intent &it) {
+    int variants = ctx.thorough() ? 8 : 6;
     if (pool.size() < 4000 && rng.below(4) == 0) pool.push_back(text(it));
     for (int k = 0; k < variants; k++) {
       int combo = (int)rng.below(12); uint64_t ss = rng.next();
@@ -289,7 +289,7 @@ void prop_c16(hz::Ctx &ctx) {
     }
   });
   // programs
-  int nprog = ctx.thorough() ? 20000 : 3000;
+  int nprog = ctx.thorough() ? 200000 : 30000;
   for (int p = 0; p < nprog && !pool.empty(); p++) {
     uint64_t ps = rng.next(); int combo = (int)rng.below(12);
     if (!ctx.take()) continue;
